@@ -191,6 +191,47 @@ package vnet
 //@            (forall k string :: {k in n.inboundMap} (k in n.inboundMap) ==> atlock(k in n.inboundMap) && n.inboundMap[k] == atlock(n.inboundMap[k])) &&
 //@            n.udpPortCounter == atlock(n.udpPortCounter)
 
+// ---- address assignment (C13)
+//@ axiom ip4Inj: forall a, b, c, d, e, f, g, h mathint :: {ip4str(a, b, c, d), ip4str(e, f, g, h)} ip4str(a, b, c, d) == ip4str(e, f, g, h) ==> a == e && b == f && c == g && d == h
+
+//@ func (n NIC) getInterface(ifName string) (ifc *transport.Interface, err error)
+//@   pure
+//@   ensures err == nil ==> ifc != nil
+//@ func (n NIC) getStaticIPs() (ips []net.IP)
+//@   pure
+//@ func (n NIC) setRouter(r *Router) (err error)
+//@   noeffect
+
+//@ func (r *Router) assignIPAddress() (ip net.IP, err error)
+//@   locked r.mutex
+//@   requires r.ipv4Net != nil && len(r.ipv4Net.IP) >= 3 && r.nics != nil && r.lastID <= 254
+//@   modifies r.lastID
+//@   ensures [unused] err == nil ==> !(ip4str(ip[0], ip[1], ip[2], ip[3]) in r.nics)
+//@   ensures [subnet] err == nil ==> len(ip) == 4 && ip[0] == r.ipv4Net.IP[0] && ip[1] == r.ipv4Net.IP[1] && ip[2] == r.ipv4Net.IP[2] &&
+//@            1 <= ip[3] && ip[3] <= 254 && ip[3] > old(r.lastID) && ip[3] <= r.lastID
+//@   ensures [exhausted] err != nil ==> err == errAddressSpaceExhausted && ip == nil
+//@   ensures [bound] r.lastID <= 254 && r.lastID >= old(r.lastID)
+//@   loop 1 invariant [bound] r.lastID <= 254 && r.lastID >= old(r.lastID)
+
+// ---- socket table of a host (C13).  covers(a, b): a bind on IP a conflicts with / serves IP b.
+//@ monitor udpConnMap mutex: portMap
+//@ pure covers(a net.IP, b net.IP) bool = ipUnspec[base(a)] || ipUnspec[base(b)] || ipStr[base(a)] == ipStr[base(b)]
+//@ pure (m *udpConnMap) wf(p int) bool = len(m.portMap[p]) > 0 &&
+//@      (forall i mathint :: {m.portMap[p][i]} 0 <= i && i < len(m.portMap[p]) ==> m.portMap[p][i] != nil && m.portMap[p][i].locAddr != nil && m.portMap[p][i].locAddr.Port == p) &&
+//@      (forall i, j mathint :: {m.portMap[p][i], m.portMap[p][j]} 0 <= i && i < j && j < len(m.portMap[p]) ==> !covers(m.portMap[p][i].locAddr.IP, m.portMap[p][j].locAddr.IP))
+//@ invariant (m *udpConnMap) table: m.portMap != nil && forall p int :: {p in m.portMap} p in m.portMap ==> m.wf(p)
+
+//@ func (m *udpConnMap) insert(conn *UDPConn) (err error)
+//@   requires conn != nil && conn.locAddr != nil
+//@   ensures [rule] (err == nil) == !(atlock(conn.locAddr.Port in m.portMap) &&
+//@            (exists i mathint :: 0 <= i && i < atlock(len(m.portMap[conn.locAddr.Port])) && atlock(covers(m.portMap[conn.locAddr.Port][i].locAddr.IP, conn.locAddr.IP))))
+//@   ensures [added] err == nil ==> (conn.locAddr.Port in m.portMap) && len(m.portMap[conn.locAddr.Port]) >= 1 &&
+//@            m.portMap[conn.locAddr.Port][len(m.portMap[conn.locAddr.Port]) - 1] == conn
+//@   ensures [refused] err != nil ==> err == errAddressAlreadyInUse
+//@   ensures [others] forall p int :: {p in m.portMap} p != conn.locAddr.Port ==> (p in m.portMap) == atlock(p in m.portMap) && m.portMap[p] == atlock(m.portMap[p])
+//@   loop 1 invariant [scan] held(m.mutex) && m.inv() && 0 <= rangeindex + 1 && rangeindex < len(conns) &&
+//@            (forall i mathint :: {conns[i]} 0 <= i && i <= rangeindex ==> !covers(conns[i].locAddr.IP, conn.locAddr.IP))
+
 // ---- UDP sockets: read deadline (C10)
 //@ pure isTimeout(err error) bool = typeis(err, *net.OpError) && typeis(ptr(err, *net.OpError).Err, *timeoutError)
 
@@ -289,5 +330,6 @@ package vnet
 
 //@ property C02: networkAddressTranslator.translateOutbound, networkAddressTranslator.findOutboundMapping, networkAddressTranslator.allocUDPPort, networkAddressTranslator.removeMapping
 //@ property C03: networkAddressTranslator.translateInbound, networkAddressTranslator.removeMapping
+//@ property C13: Router.assignIPAddress, udpConnMap.insert
 //@ property C10: UDPConn.ReadFrom, UDPConn.Read, UDPConn.SetReadDeadline, UDPConn.SetDeadline
 //@ property C16: NewLossFilter, LossFilter.onInboundChunk
